@@ -1,6 +1,6 @@
 # -*- coding: utf-8 -*-
 """W-construct for the opportunistic-TLS application messages (MySQL, RDP, OpenVPN, PostgreSQL, LDAP)."""
-from vmon.gen.tls import Pair, edge_int, pick_len, rbytes
+from vmon.gen.tls import Pair, edge_int, guarded, pick_len, rbytes
 from vmon.ref import opp as ref
 
 
@@ -201,12 +201,13 @@ def ldap_request_variants(rng):
                 compose_must_match=False)
 
 
-def generate(rng, count):
+def generate(rng, count, failures=False):
     makers = [mysql_handshake, lambda r: mysql_handshake(r, True), mysql_ssl_request, mysql_record, tpkt,
               lambda r: x224(r, True), lambda r: x224(r, False), rdp_negotiation, openvpn, openvpn, openvpn_tcp,
               postgresql, ldap_request, ldap_response, ldap_response_variants, ldap_response_variants, ldap_request_variants]
     produced = 0
     while produced < count:
         for maker in makers:
-            yield maker(rng)
-            produced += 1
+            for pair in guarded(maker, rng, failures):
+                yield pair
+                produced += 1
